@@ -229,6 +229,16 @@ func (m *Machine) Top(n *Node) (v Val, err error) {
 	return m.eval(n, nil), nil
 }
 
+// small keeps the reference inside the range where it is exact and where
+// the interpreter's integer representation is not in question (C05): a
+// result beyond 2^40 ends the evaluation like an exhausted budget.
+func small(v int64) int64 {
+	if v > 1<<40 || v < -(1<<40) {
+		panic(Budget{})
+	}
+	return v
+}
+
 func truth(b bool) Val {
 	if b {
 		return T{}
@@ -491,13 +501,13 @@ func (m *Machine) eval(n *Node, e *env) Val {
 	case "+":
 		var s int64
 		for _, x := range args {
-			s += asInt(x, "+")
+			s = small(s + asInt(x, "+"))
 		}
 		return s
 	case "*":
 		s := int64(1)
 		for _, x := range args {
-			s *= asInt(x, "*")
+			s = small(s * asInt(x, "*"))
 		}
 		return s
 	case "-":
@@ -506,7 +516,7 @@ func (m *Machine) eval(n *Node, e *env) Val {
 		}
 		s := asInt(args[0], "-")
 		for _, x := range args[1:] {
-			s -= asInt(x, "-")
+			s = small(s - asInt(x, "-"))
 		}
 		return s
 	case "1+":
